@@ -1497,12 +1497,24 @@ def c14(tier, seed):
                 jobs.append(job)
                 meta[jid] = (name, dm, inv)
     res = run_scen_jobs(jobs, wd, threads=4)
+    # a scenario in which some session log is still open at the end (a child's thread that did not get the CPU in time on a
+    # loaded machine - or a child that really never ends) is run again on its own; only the repeated outcome is judged
+    again = [j for j in jobs if any(not sl["ended"] for sl in res[j["id"]]["sessions"]) and not res[j["id"]].get("stalls")]
+    for round_ in range(2):
+        if not again:
+            break
+        res.update(run_scen_jobs(again, wd, name="again%d" % round_, threads=1))
+        again = [j for j in again if any(not sl["ended"] for sl in res[j["id"]]["sessions"]) and not res[j["id"]].get("stalls")]
     scens = []
     for j in jobs:
         r = res[j["id"]]
         name, dm, inv = meta[j["id"]]
         if r.get("errors"):
             raise ToolError("C14 scenario %s: %s" % (name, r["errors"]))
+        if any(not sl["ended"] for sl in r["sessions"]) and not r.get("stalls"):
+            V.report("session-never-ended:%s" % name, "a session of scenario %s (%s) was still running after its parent had ended (3 runs)" % (name, dm),
+                     {"scenario": name, "open_logs": [sl["idx"] for sl in r["sessions"] if not sl["ended"]]})
+            continue
         pidx = [n for n in r["names"] if n[0] == "P"][0][1]
         logs = {sl["idx"]: [x[:-1] for x in sl["recs"]] for sl in r["sessions"]}
 
